@@ -23,9 +23,41 @@ var VerifTol float64 // relative tolerance of VerifAssertEqF in native replay of
 var verifHarnesses = map[string]func(a []int){}
 
 type verifUFEntry struct {
-	Name string    `json:"name"`
-	Args []float64 `json:"args"`
-	Val  float64   `json:"val"`
+	Name string
+	Args []float64
+	Val  float64
+}
+
+// values are written as IEEE bit patterns "f:<hex>" (NaN and the infinities
+// have no JSON number); plain numbers are accepted too
+func (e *verifUFEntry) UnmarshalJSON(b []byte) error {
+	var raw struct {
+		Name string        `json:"name"`
+		Args []interface{} `json:"args"`
+		Val  interface{}   `json:"val"`
+	}
+	if err := json.Unmarshal(b, &raw); err != nil {
+		return err
+	}
+	num := func(x interface{}) float64 {
+		switch v := x.(type) {
+		case float64:
+			return v
+		case string:
+			if strings.HasPrefix(v, "f:") {
+				u, _ := strconv.ParseUint(v[2:], 16, 64)
+				return math.Float64frombits(u)
+			}
+		}
+		return 0
+	}
+	e.Name = raw.Name
+	e.Args = nil
+	for _, a := range raw.Args {
+		e.Args = append(e.Args, num(a))
+	}
+	e.Val = num(raw.Val)
+	return nil
 }
 
 func VerifRegister(name string, f func(a []int)) { verifHarnesses[name] = f }
@@ -189,6 +221,13 @@ func VerifPanics(f func()) (p bool) {
 	return false
 }
 func VerifUF(name string, args ...float64) float64 {
+	if seed, auto := verifAuto(); auto && len(verifUFTable) == 0 {
+		key := name
+		for _, x := range args {
+			key += fmt.Sprintf(":%x", math.Float64bits(x))
+		}
+		return autoFloat(seed, "uf/"+key)
+	}
 	best, bd := 0.0, math.Inf(1)
 	for _, e := range verifUFTable {
 		if e.Name != name || len(e.Args) != len(args) {
@@ -196,9 +235,16 @@ func VerifUF(name string, args ...float64) float64 {
 		}
 		d := 0.0
 		for i := range args {
-			d += math.Abs(args[i] - e.Args[i])
+			if math.Float64bits(args[i]) == math.Float64bits(e.Args[i]) || (args[i] != args[i] && e.Args[i] != e.Args[i]) {
+				continue
+			}
+			if x := math.Abs(args[i] - e.Args[i]); x == x {
+				d += x
+			} else {
+				d = math.Inf(1)
+			}
 		}
-		if d < bd {
+		if d < bd || (best == 0 && bd == math.Inf(1) && d == bd) {
 			bd, best = d, e.Val
 		}
 	}
